@@ -176,6 +176,29 @@ def count_obligations(build, vfiles):
     return total, names, sorted(files)
 
 
+def start_watchdog(prop, tier, seed):
+    """last resort against a changed library that livelocks inside a family without a watchdog of its own: after a generous
+    wall-clock limit (quick 45 min, thorough 5 h; VERIF_WALL_LIMIT seconds) the check reports that it did not finish - the
+    property is then not shown to hold - names where it was stuck in the replay file, and exits 1"""
+    import threading
+    limit = float(os.environ.get('VERIF_WALL_LIMIT') or (18000 if tier == 'thorough' else 2700))
+    main_thread = threading.main_thread()
+
+    def fire():
+        frames = sys._current_frames().get(main_thread.ident)
+        where = ''.join(traceback.format_stack(frames)[-12:]) if frames is not None else ''
+        what = ['the check did not finish within %d s of wall-clock time (a livelock in the implementation under test?)' % limit]
+        os.makedirs(os.path.join(coqbuild.OUT, 'replays'), exist_ok=True)
+        path = os.path.join(coqbuild.OUT, 'replays', '%s-unproved-%s.json' % (prop, hash_of(what)))
+        json.dump(dict(property=prop, kind='no-failing-input-found', what=what, stuck_at=where, seed=seed, tier=tier,
+                       broken_obligations={}, mismatches=[], searched=False, notes=[]), open(path, 'w'), indent=1)
+        print('VIOLATION property=%s replay=%s no-failing-input-found' % (prop, path), flush=True)
+        os._exit(1)
+    t = threading.Timer(limit, fire)
+    t.daemon = True
+    t.start()
+
+
 class NotReplayable(Exception):
     """raised by a module's replay() for an input it has no single-case runner for (inputs of directed families)"""
 
@@ -241,6 +264,7 @@ def main(argv=None):
             print('VIOLATION property=%s replay=%s' % (prop, args.replay))
         return 0 if ok else 1
 
+    start_watchdog(prop, tier, args.seed)
     build = coqbuild.ensure_built()
     ctx.build = build
     vfiles = list(getattr(mod, 'COQ_FILES', ['props/%s.v' % prop]))
